@@ -760,9 +760,15 @@ def rule_j(ctx, ix):
             if isinstance(st, ast.Assign) and unparse(st.value) == src and isinstance(st.targets[0], ast.Attribute) and st.targets[0].attr == attr:
                 how, ok = 'assigned', True
             elif isinstance(st, ast.Call):
-                for k in st.keywords:
-                    if k.arg is not None and unparse(k.value) == src:
-                        g = dc.resolve_func(call_name(st)) if isinstance(st.func, ast.Attribute) else None
+                passed = [(k.arg, k.value) for k in st.keywords if k.arg is not None]
+                g0 = dc.resolve_func(call_name(st)) if isinstance(st.func, ast.Attribute) and call_name(st) else None
+                if g0 is not None:
+                    ps_ = [p_ for p_ in g0.params if p_ != g0.self_name]
+                    passed += [(ps_[i_], a_) for i_, a_ in enumerate(st.args) if i_ < len(ps_) and not isinstance(a_, ast.Starred)]
+                for karg, kval in passed:
+                    k = ast.keyword(arg=karg, value=kval)
+                    if unparse(k.value) == src:
+                        g = g0
                         if g is None:
                             raise AnalysisError('coerce_subset_groups: `%s` is passed to %s, which is not resolved' % (src, unparse(st.func)))
                         how = 'passed to %s(%s=...)' % (g.construct, k.arg)
